@@ -132,7 +132,12 @@ class Interp:
 
     MAX_PATHS = 512
 
-    def __init__(self, fn, run_attr='run', unroll=(0, 2)):
+    def __init__(self, fn, run_attr='run', unroll=(0, 2), resolver=None, module_const=None):
+        # resolver(call) -> (helper FunctionDef, skip_first_param) for private helpers of the same class / module, or None
+        # module_const(name) -> expression of a module-level constant, or None
+        self.resolver = resolver
+        self.module_const = module_const
+        self.depth = 0
         self.fn = fn
         self.run_attr = run_attr
         self.unroll = unroll
@@ -252,9 +257,8 @@ class Interp:
             self._block(st.orelse, env)
             self._block(st.finalbody, env)
         elif isinstance(st, ast.Return):
-            if st.value is not None:
-                self._expr(st.value, env)
-            raise _Return()
+            v = self._expr(st.value, env) if st.value is not None else NONE
+            raise _Return(v)
         elif isinstance(st, ast.Raise):
             raise _Return()
         elif isinstance(st, ast.Break):
@@ -370,6 +374,13 @@ class Interp:
         if isinstance(e, ast.Name):
             if e.id in env:
                 return env[e.id]
+            if self.module_const is not None:
+                ce = self.module_const(e.id)
+                if ce is not None and isinstance(ce, (ast.Constant, ast.JoinedStr, ast.BinOp)):
+                    try:
+                        return self._expr(ce, {})
+                    except AnalysisError:
+                        pass
             return Atom('global:' + e.id)
         if isinstance(e, ast.Attribute):
             base = e.value
@@ -489,8 +500,67 @@ class Interp:
             out.append(self._expr(e.elt, env2))
         return out
 
+    def _call_helper(self, fn, skip_first, e, env):
+        a = fn.args
+        params = [x.arg for x in a.posonlyargs + a.args]
+        if skip_first and params:
+            params = params[1:]
+        env2 = {}
+        vals = [self._expr(x, env) for x in e.args]
+        for p_, v_ in zip(params, vals):
+            env2[p_] = v_
+        if len(vals) > len(params) and a.vararg is not None:
+            env2[a.vararg.arg] = list(vals[len(params):])
+        for k in e.keywords:
+            if k.arg is not None:
+                env2[k.arg] = self._expr(k.value, env)
+        defaults = dict(zip(params[len(params) - len(a.defaults):], a.defaults)) if a.defaults else {}
+        for p_ in params:
+            if p_ not in env2:
+                env2[p_] = self._expr(defaults[p_], {}) if p_ in defaults else Atom('param:' + p_)
+        for x, d in zip(a.kwonlyargs, a.kw_defaults):
+            if x.arg not in env2:
+                env2[x.arg] = self._expr(d, {}) if d is not None else Atom('param:' + x.arg)
+        self.depth += 1
+        try:
+            self._block(fn.body, env2)
+            return NONE
+        except _Return as r:
+            return r.value if r.value is not None else NONE
+        finally:
+            self.depth -= 1
+
+    def _format(self, tmpl, e, env):
+        """str.format on a template made of literal text only: fields become holes of the argument values"""
+        import string
+        text = tmpl.render()
+        if tmpl.markers():
+            raise AnalysisError('str.format on a statement template that already has holes is not modelled')
+        pos = [self._expr(a, env) for a in e.args]
+        kw = {k.arg: self._expr(k.value, env) for k in e.keywords if k.arg}
+        out = S()
+        auto = 0
+        for lit, field, spec, conv in string.Formatter().parse(text):
+            if lit:
+                out = out + S.lit(lit)
+            if field is None:
+                continue
+            if field == '':
+                v = pos[auto] if auto < len(pos) else Opaque('format-arg')
+                auto += 1
+            elif field.isdigit():
+                v = pos[int(field)] if int(field) < len(pos) else Opaque('format-arg')
+            else:
+                v = kw.get(field.split('.')[0].split('[')[0], Opaque('format-arg:' + field))
+            out = out + to_s(v)
+        return out
+
     def _call(self, e, env):
         f = e.func
+        if self.resolver is not None and self.depth < 3 and not (isinstance(f, ast.Attribute) and f.attr == self.run_attr):
+            r = self.resolver(e)
+            if r is not None:
+                return self._call_helper(r[0], r[1], e, env)
         # <x>.run(query, **params)
         if isinstance(f, ast.Attribute) and f.attr == self.run_attr:
             recv = self._try(f.value, env)
@@ -604,7 +674,7 @@ class Interp:
                 if meth in ('strip', 'rstrip', 'lstrip') and not args:
                     return recv
                 if meth == 'format':
-                    raise AnalysisError('str.format on a statement template is not modelled')
+                    return self._format(recv, e, env)
                 return Opaque('strmeth')
             if isinstance(recv, Opaque):
                 if meth == 'session':
@@ -643,7 +713,8 @@ class _Items:
 
 
 class _Return(Exception):
-    pass
+    def __init__(self, value=None):
+        self.value = value
 
 
 class _Break(Exception):
